@@ -605,6 +605,17 @@ def run(ctx) -> None:
                    'parameter that (transitively) receives a model series such as TotalRevenue.value - the reported yearly series stays the one '
                    'NPV, IRR, VIR and MOIC were evaluated on, year for year')
     check_series_arguments_untouched(ctx)
+    ctx.rule('K11', 'no economics Calculate (nor a finance helper) is memoised: a second evaluation on the same model recomputes the series and the '
+                    'figures from the current inputs, so they stay consistent with one another (C08 P2)')
+    from gxstat.runner import Renamed as _Ren
+    from rules.c08 import check_p2 as _p2
+    _n0 = len(ctx.obligations)
+    _p2(_Ren(ctx, {'P2': 'K11'}, key_filter=lambda k: k.endswith('/memoised')))
+    _keep = [o for o in ctx.obligations[_n0:] if 'Economics' in o['where']]
+    del ctx.obligations[_n0:]
+    ctx.obligations.extend(_keep)
+    if not _keep:
+        ctx.ok('K11', 'economics/no-memoised-function', 'src/geophires_x/Economics.py', 'no memoised function in the economics modules')
     ctx.undecided('that npf.irr finds the root (a reported non-zero IRR zeroes the NPV)', 'npf.npv numerics',
                   'N/A rendering of a zero payback in the report (C09)')
     ctx.assume('numpy_financial.irr returns a fraction and npv takes a fractional rate (library documentation)')
